@@ -129,7 +129,16 @@ def twin_run(kind_name, ops, seed, scratch):
                 # retell the same result for an already told point
                 cp = keys[op[1] % len(keys)]
                 p = next((q for q in list(ds.extra_data) if L.canon(q) == cp), None)
-                if p is not None:
+                if p is not None and kind_name in ("seq", "l2d", "integ") and op[1] % 3 == 0:
+                    # learners that take the latest value: the point is measured again with another result; the wrapper must
+                    # hand the new value on and keep the new full result
+                    y2 = kind.fn(p)
+                    y2 = (y2 + 1) if isinstance(y2, (int, float)) else y2
+                    r2 = {"y": y2, "aux": ("second measurement", L.canon(p))}
+                    ds.tell(p, r2)
+                    plain.tell(p, pick(r2))
+                    told[L.canon(p)] = r2
+                elif p is not None:
                     tell(p)
             elif op[0] == "tell_pending" and kind.rand_point:
                 p = kind.rand_point(random.Random(op[1]))
@@ -204,6 +213,26 @@ def twin_run(kind_name, ops, seed, scratch):
             return ("extra_persist", f"extra_data lost across {chan}: {len(got)} vs {len(want)} entries")
         if kind_name != "avg1d" and L.data_of(r) != L.data_of(ds):  # avg1d restores means up to rounding (C13)
             return ("data_persist", f"data differs across {chan}")
+    # rolling back to a checkpoint: the saved state is loaded into a wrapper that has gone on in the meantime.  For the learners
+    # whose load REPLACES their data the full results must be replaced too (exactly the points the learner holds)
+    if kind_name in ("lnd2", "avg", "integ", "l2d") and told:
+        try:
+            f = os.path.join(scratch, "ds_checkpoint.pickle")
+            ds.save(f)
+            extra_pts = []
+            for _ in range(3):
+                pts, _imps = ds.ask(2)
+                for p in pts:
+                    ds.tell(p, full(p))
+                    extra_pts.append(p)
+            ds.load(f)
+        except Exception:  # noqa: BLE001
+            return None
+        have = {L.canon(k) for k in ds.extra_data}
+        held = {L.canon(k) for k in ds.learner.data}
+        if have != held:
+            return ("extra_keys_after_rollback", f"after loading a checkpoint into a wrapper that had gone on, extra_data holds "
+                                                 f"{len(have)} points, the wrapped learner {len(held)} ({len(have - held)} stale)")
     return None
 
 
@@ -263,7 +292,7 @@ def run(ctx):
     scratch = tempfile.mkdtemp(prefix="c18_", dir=core.OUT)
     nrun, nontrivial, skipped = 0, set(), 0
     try:
-        kinds = ["l1d", "l1d_vec", "l1d_curv", "lnd2", "avg", "avg1d", "seq", "integ"]
+        kinds = ["l1d", "l1d_vec", "l1d_curv", "lnd2", "l2d", "avg", "avg1d", "seq", "integ"]
         for kn in kinds:
             for _ in range(ctx.n(12, 200)):
                 seed = ctx.rng.randrange(1 << 30)
@@ -281,7 +310,8 @@ def run(ctx):
         ctx, proof, [corr], failures,
         rule="lock-step histories of DataSaver(SequenceLearner) (ask/tell of result pairs/discard/copy_from, both pickers) and "
              "twin runs DataSaver(L) vs L for L in {Learner1D (3 losses, vector), LearnerND 2-D, AverageLearner, "
-             "AverageLearner1D, SequenceLearner, IntegratorLearner} with persistence through save/load, pickle, cloudpickle, "
+             "AverageLearner1D, SequenceLearner, IntegratorLearner, Learner2D} (incl. a second measurement of a point for the learners "
+             "that take the latest value, and loading a checkpoint into a wrapper that has gone on) with persistence through save/load, pickle, cloudpickle, "
              "copy_from; non-trivial = distinct (kind, seed) twin history",
         samples=[c["lines"][:8] for c in cases[:2]],
         evaluations=len(cases) + nrun, distinct=len(nontrivial) + len(corr.distinct),
